@@ -83,7 +83,7 @@ EXPECTED_PROBES = {
     'C06': ['row_table', 'unknown_channel', 'empty_spike_list', 'waveform_route', 'tf_row_table',
             'unsorted_spikes', 'same_table_densified_twice', 'very_large_unknown_channel_id',
             'minus_one_inside_column_rows', 'waveform_route_request_with_absent_spikes',
-            'waveform_route_two_spikes'],
+            'waveform_route_two_spikes', 'waveform_route_spike_storing_other_channels'],
     'C08': ['multi_template_cluster', 'empty_id', 'undo', 'dirty_reload', 'highest_template_unused',
             'single_spike_cluster', 'tie_in_spike_counts'],
     'C09': ['empty_highest_id', 'curated', 'depths', 'zero_positive_part', 'batch_boundary_size'],
@@ -147,6 +147,8 @@ def gen(rng, prop, tier):
             cfg['alf_times_f32'] = rng.choice([0, 1000, 2 ** 23 + 11, 2 ** 23 + 2 ** 22 + 5])
         if p['raw'] and rng.random() < 0.15:
             cfg['decoy_cwd'] = True
+        if p['raw'] and cfg['raw'].get('format', 'flat') == 'flat' and rng.random() < 0.12:
+            cfg['raw']['symlinked'] = True
         if rng.random() < 0.08:
             cfg['dir_name'] = rng.choice(['mouse[12]', 'run*', 'a?b', 'x[!y]z', 'probe{0,1}'])
         if any(po['kind'] == 'nan_column' for po in cfg['poison']) and rng.random() < 0.6:
@@ -222,6 +224,8 @@ def gen(rng, prop, tier):
             p['tfeatures'] = True if rng.random() < 0.6 else p['tfeatures']
             if p['tfeatures'] and 'nloc_tf' not in cfg:
                 cfg['nloc_tf'] = rng.randint(2, nt)
+            if p['tfeatures'] and rng.random() < 0.2:
+                cfg['tfeat_nonfinite'] = [rng.random() for _ in range(rng.randint(1, 4))]
             ops = [{'op': 'load'}]
             for _ in range(rng.randint(1, 8)):
                 r = rng.random()
@@ -343,6 +347,11 @@ def gen(rng, prop, tier):
                                                                     'channels']),
                                 'frac': rng.choice([0.0, 0.3, 0.7, 0.95])})
                 ops.append({'op': 'reload'})
+                for _ in range(rng.randint(1, 3)):
+                    ops.append({'op': 'q_waveforms', 'seed': rng.randint(0, 10 ** 6)})
+            if rng.random() < 0.15:
+                # the raw recording is archived away after the export: the store is all that is left
+                ops += [{'op': 'close'}, {'op': 'remove_raw'}, {'op': 'reload'}]
                 for _ in range(rng.randint(1, 3)):
                     ops.append({'op': 'q_waveforms', 'seed': rng.randint(0, 10 ** 6)})
         else:
@@ -1037,8 +1046,14 @@ class DatasetWorld(object):
             if len(rch) < int((self.g.tmpl_cols[t] != -1).sum()):
                 ctx.probe('signal_free_column')
             ctx.check(len(set(ch)) == len(ch), 'template-channels-not-distinct', lambda: {'ch': ch})
-            ctx.check(set(ch) == set(rch), 'sparse-template-channel-set',
-                      lambda: {'got': ch, 'expected': rch})
+            # "signal-free" has no quantitative definition: a stored column whose amplitude is
+            # below 1e-5 of the largest stored column may or may not be listed
+            dat_ = np.abs(np.asarray(self.g.tmpl_data[t], dtype=np.float64)).max(axis=0)
+            faint = set(int(c) for c, a_ in zip(self.g.tmpl_cols[t], dat_)
+                        if c != -1 and 0 < a_ <= 1e-5 * max(float(dat_.max()), 1e-300))
+            ctx.check(set(rch) - faint <= set(ch) <= set(rch), 'sparse-template-channel-set',
+                      lambda: {'got': ch, 'expected': rch, 'optional': sorted(faint)})
+            rch_full = rch
             scale = max(float(np.abs(rW).max()), 1e-300) if rW.size else 1.0
             for j, c in enumerate(ch):
                 col = rW[:, rch.index(c)]
@@ -1168,7 +1183,10 @@ class DatasetWorld(object):
         exp = self.ref.template_features(spikes)
         if g.tf_rows is not None:
             ctx.probe('tf_row_table')
-        ctx.check(got is not None and _aeq(got, exp), 'template-features-values',
+        ctx.check(got is not None and np.shape(got) == np.shape(exp)
+                  and bool(np.array_equal(np.asarray(got, dtype=np.float64),
+                                          np.asarray(exp, dtype=np.float64), equal_nan=True)),
+                  'template-features-values',
                   lambda: {'spikes': spikes.tolist(), 'got': _desc(got), 'expected': _desc(exp)})
 
     def q_from_sparse(self, op):
@@ -1233,8 +1251,18 @@ class DatasetWorld(object):
         chans = [int(c) for c in row if c != -1][:op['k']]
         if not chans:
             return
+        ids_all = [int(s) for s in np.asarray(sw.spike_ids)]
+        chan_rows = np.asarray(sw.spike_channels)
+        if (op['t'] + op['k']) % 4 == 1:
+            # ... plus stored spikes of OTHER templates, which may store none of the requested
+            # channels (the store serves zeros on channels a spike does not hold)
+            others = [s for s in ids_all if g.stemplates[s] != t]
+            add = others[::max(1, len(others) // 2)][:2]
+            if add:
+                stored = sorted(stored + add)
+                ctx.probe('waveform_route_spike_storing_other_channels')
         spikes = np.array(stored, dtype=np.int64)
-        all_stored = set(int(s) for s in np.asarray(sw.spike_ids))
+        all_stored = set(ids_all)
         absent = [s for s in range(self.cfg['ns']) if s not in all_stored]
         if absent and (op['t'] + op['k'] + len(stored)) % 2:
             # the request also names spikes the store does not hold (values claimed for stored
@@ -1251,6 +1279,11 @@ class DatasetWorld(object):
         # the waveforms the features must be projections of: windows x factor on those channels
         W = np.stack([window_ref(self.A, g.samples[s], self.cfg['nsw'], chans)
                       for s in stored]).astype(np.float64) * self.store_factor
+        for a, s_ in enumerate(stored):
+            held = set(int(c) for c in chan_rows[ids_all.index(s_)] if c != -1)
+            for b, ch in enumerate(chans):
+                if ch not in held:
+                    W[a, :, b] = 0
         ctx.check(got is not None and got.shape == (len(stored), len(chans), 3),
                   'waveform-features-shape', lambda: {'got': _desc(got)})
         ok = ref.pca_projection_ok(W, got)
@@ -1569,7 +1602,7 @@ class DatasetWorld(object):
 
     def save_subset(self, op):
         ctx, m = self.ctx, self.model
-        if self.A is None:
+        if self.A is None or getattr(self, 'raw_removed', False):
             return
         # a model retired by a dirty reload may still map the store: rewriting it is outside the
         # simulation (DESIGN.md 2.1 "stale mappings"): close the retired models first.
@@ -1721,7 +1754,9 @@ class DatasetWorld(object):
             ctx.skipped['single-spike-store-squeezed'] += 1
             return
         eps = float(np.finfo(self.A.dtype).eps) if self.A.dtype.kind == 'f' else 0.0
-        if sw is not None and rs.rand() < 0.7:
+        if getattr(self, 'raw_removed', False) and sw is None:
+            ctx.fail('store-not-loaded', {'why': 'raw recording removed, intact store present'})
+        if sw is not None and (rs.rand() < 0.7 or getattr(self, 'raw_removed', False)):
             ids = np.asarray(sw.spike_ids)
             if len(ids) == 0:
                 return
@@ -1861,6 +1896,15 @@ def run_ops(plan, ctx, cfg):
         elif k == 'remove_optional':
             if w.model is None:
                 w.remove_optional(op['what'])
+        elif k == 'remove_raw':
+            if w.model is None and w.store == 'ok' and w.A is not None:
+                for f in list(w.dir.iterdir()):
+                    if f.name.startswith('raw') and (f.is_file() or f.is_symlink()):
+                        f.unlink()
+                w.raw_removed = True
+                ctx.op('remove_raw')
+                ctx.fault('raw_recording_removed_after_export')
+                ctx.probe('store_without_raw_recording')
         elif k == 'tear':
             w.tear(op)
         elif k == 'foreign':
